@@ -439,6 +439,8 @@ struct World {
     watched: Vec<(String, Typed)>,
     text: Vec<String>,
     nontrivial: bool,
+    /// canonical reply of the last EXEC inside MULTI
+    last_exec: Option<String>,
 }
 
 impl World {
@@ -458,6 +460,7 @@ impl World {
             watched: Vec::new(),
             text: Vec::new(),
             nontrivial: false,
+            last_exec: None,
         }
     }
 
@@ -494,7 +497,7 @@ impl World {
 
     /// observations of the store taken before an input is sent (`view` = a dump taken earlier,
     /// valid as long as nothing has changed the store since: pipelined blocks)
-    async fn pre(&self, inp: &Inp, view: Option<&Vec<(String, Typed)>>) -> (Option<Vec<(String, Typed)>>, Vec<(String, Typed, Typed)>) {
+    async fn pre(&self, inp: &Inp, view: Option<&Vec<(String, Typed)>>) -> (Option<Vec<(String, Typed)>>, Vec<(String, Typed, Typed, bool)>) {
         let before = if self.in_multi && matches!(inp, Inp::Exec(_) | Inp::Discard) {
             Some(match view {
                 Some(v) => v.clone(),
@@ -503,17 +506,25 @@ impl World {
         } else {
             None
         };
-        let mut changed: Vec<(String, Typed, Typed)> = Vec::new();
+        // `changed`: watched keys whose value differs from SOME snapshot (EXEC may answer nil);
+        // entries whose FIRST snapshot differs come first and carry `true` (EXEC must answer nil).
+        // A repeated WATCH of a watched key is a no-op in Redis (executor level, since the fix) and
+        // an additional snapshot at the connection level: both are admitted.
+        let mut changed: Vec<(String, Typed, Typed, bool)> = Vec::new();
         if self.in_multi && matches!(inp, Inp::Exec(_)) {
+            let mut seen: Vec<&String> = Vec::new();
             for (k, t0) in &self.watched {
+                let first = !seen.contains(&k);
+                seen.push(k);
                 let now = match view {
                     Some(v) => lookup(v, k),
                     None => typed(&self.st, k).await,
                 };
                 if now != *t0 {
-                    changed.push((k.clone(), t0.clone(), now));
+                    changed.push((k.clone(), t0.clone(), now, first));
                 }
             }
+            changed.sort_by_key(|c| !c.3);
         }
         (before, changed)
     }
@@ -547,7 +558,7 @@ impl World {
         }
     }
 
-    async fn post(&mut self, out: &mut Out, inp: Inp, r: Rv, pre: (Option<Vec<(String, Typed)>>, Vec<(String, Typed, Typed)>), view: Option<&Vec<(String, Typed)>>) {
+    async fn post(&mut self, out: &mut Out, inp: Inp, r: Rv, pre: (Option<Vec<(String, Typed)>>, Vec<(String, Typed, Typed, bool)>), view: Option<&Vec<(String, Typed)>>) {
         let perr = matches!(inp, Inp::Perr(_));
         let (before, changed) = pre;
         self.text.push(inp.text());
@@ -595,6 +606,7 @@ impl World {
         match &inp {
             Inp::Exec(_) => {
                 self.in_multi = false;
+                self.last_exec = Some(show(&r, false));
                 let body = std::mem::take(&mut self.body);
                 let watched = std::mem::take(&mut self.watched);
                 let queued: Vec<&Inp> = body.iter().filter(|(_, r)| *r == Rv::Simple("QUEUED".into())).map(|(i, _)| i).collect();
@@ -631,7 +643,7 @@ impl World {
                         if refused {
                             out.violation("C05:execabort:missing", "an input was refused at queue time but EXEC executed the queue", self.replay_json());
                         }
-                        if let Some((k, t0, now)) = changed.first() {
+                        if let Some((k, t0, now, _)) = changed.iter().find(|c| c.3) {
                             let class = match (t0, now) {
                                 (Typed::List(_), Typed::List(_)) => "non-string-key-change-undetected",
                                 _ => "string-key-change-undetected",
@@ -708,12 +720,15 @@ impl World {
         out.count("exec:concurrent");
         let foreign: Vec<Cmd> = sched.iter().flatten().cloned().collect();
         // EXEC's store accesses: one GET per watched snapshot, then the queued commands; PING is
-        // answered by `ShardedActorState::execute` without a message to a shard (no yield), so it
-        // is not a point where the other connection gets a turn
+        // answered by `ShardedActorState::execute` without a message to a shard (no yield), and
+        // connection-level commands (AUTH, ACL WHOAMI, RESET) are answered by the connection itself
+        // (since the fix), so neither is a point where the other connection gets a turn.
+        // CLIENT SETNAME parses to `Command::ClientSetName`, which the shard-0 executor answers
+        // (+OK, same as the model's local reply): it IS a store access.
         let mut real: Vec<bool> = self.watched.iter().map(|_| true).collect();
         for (i, r) in &self.body {
             if *r == Rv::Simple("QUEUED".into()) {
-                real.push(!matches!(i, Inp::Cmd(Cmd::Ping)));
+                real.push(!matches!(i, Inp::Cmd(Cmd::Ping) | Inp::Local(0..=2)));
             }
         }
         let mut pipeline = Vec::new();
@@ -862,6 +877,18 @@ async fn session(out: &mut Out, rng: &mut Rng, script: Option<(usize, Vec<Step>)
                 Step::Other(c) => w.foreign(out, c).await,
                 Step::ConcExec(sc) => w.concurrent_exec(out, sc).await,
                 Step::Block(b) => w.pipelined(out, b).await,
+                Step::ExpectExec(sig, want) => {
+                    // a repaired defect: its witness must now PASS
+                    if w.last_exec.as_deref() == Some(want) {
+                        out.count(&format!("corpus:fixed-defect-passes:{}", sig));
+                    } else {
+                        out.violation(
+                            &format!("C05:fixed-defect-regressed:{}", sig),
+                            &format!("the witness of the repaired defect {} fails again: EXEC answered {:?}, expected {}", sig, w.last_exec, want),
+                            w.replay_json(),
+                        );
+                    }
+                }
             }
         }
     } else {
@@ -954,7 +981,7 @@ fn gen_sched(rng: &mut Rng, w: &World) -> Vec<Vec<Cmd>> {
     let mut real: Vec<bool> = w.watched.iter().map(|_| true).collect();
     for (i, r) in &w.body {
         if *r == Rv::Simple("QUEUED".into()) {
-            real.push(!matches!(i, Inp::Cmd(Cmd::Ping)));
+            real.push(!matches!(i, Inp::Cmd(Cmd::Ping) | Inp::Local(0..=2)));
         }
     }
     let slots = (real.len() + 1 + rng.below(2) as usize).max(2);
@@ -975,6 +1002,8 @@ enum Step {
     ConcExec(Vec<Vec<Cmd>>),
     /// inputs written in one write
     Block(Vec<Inp>),
+    /// (signature of a repaired defect, canonical reply its last EXEC must now give)
+    ExpectExec(&'static str, &'static str),
 }
 
 /// fixed corpus: the witnesses of the Lean counterexample theorems, replayed first on every run
@@ -1005,11 +1034,20 @@ fn corpus() -> Vec<(usize, Vec<Step>)> {
             Step::In(Inp::Cmd(Cmd::Get("k".into()))),
             Step::ConcExec(vec![vec![], vec![Cmd::Set("k".into(), b("F"))]]),
         ]));
-        // connection_level_command_counterexample
+        // connection_level_command_pinned_counterexample — repaired: must now answer as outside MULTI
         v.push((shards, vec![
             Step::In(Inp::Multi),
             Step::In(Inp::Local(0)),
             Step::In(Inp::Exec(vec![])),
+            Step::ExpectExec("C05:exec:connection-level-command-differs", "*1 +OK"),
+            Step::In(Inp::Multi),
+            Step::In(Inp::Local(0)),
+            Step::In(Inp::Local(1)),
+            Step::In(Inp::Cmd(Cmd::Set("k".into(), b("1")))),
+            Step::In(Inp::Local(2)),
+            Step::In(Inp::Local(3)),
+            Step::In(Inp::Exec(vec![])),
+            Step::ExpectExec("C05:exec:connection-level-command-differs", "*5 +OK $x64656661756c74 +OK +RESET +OK"),
         ]));
         // a transaction sent in one write; GETs / SETs pipelined inside MULTI (the shape the
         // connection's batch collectors and fast path look for: they must stay out of a transaction)
@@ -1099,10 +1137,11 @@ fn xsession(out: &mut Out, rng: &mut Rng, corpus: Option<u8>) {
     let mut watched: Vec<(String, Typed)> = Vec::new();
     let mut text: Vec<String> = Vec::new();
     let mut nontrivial = false;
+    let mut last_exec: Option<String> = None;
     // corpus: the list-key WATCH that the connection level misses is detected here
     let script: Vec<u64> = match corpus {
         Some(0) => vec![200, 201, 202, 203, 204, 205],
-        // x_rewatch_forgets_change_counterexample
+        // x_rewatch_forgets_change_pinned_counterexample — repaired: EXEC must now answer nil
         Some(_) => vec![210, 211, 212, 211, 203, 213, 205],
         None => (0..rng.range(6, 24)).map(|_| rng.below(100)).collect(),
     };
@@ -1142,9 +1181,11 @@ fn xsession(out: &mut Out, rng: &mut Rng, corpus: Option<u8>) {
         let kind = line.split(' ').nth(1).unwrap().to_string();
         out.count(&format!("xinput:{}:{}", if in_multi { "in-multi" } else { "outside" }, kind));
         let before = xdump(&ex);
+        // may-abort: some snapshot differs; must-abort: the FIRST snapshot of a key differs
         let changed: Vec<String> = watched.iter().filter(|(k, t0)| xtyped(&ex, k) != *t0).map(|(k, _)| k.clone()).collect();
+        let must: Vec<String> = KEYS.iter().filter_map(|k| watched.iter().find(|(w, _)| w == k)).filter(|(k, t0)| xtyped(&ex, k) != *t0).map(|(k, _)| k.clone()).collect();
         // is every change hidden by a later WATCH of the same key (whose snapshot is current)?
-        let only_rewatch = changed.iter().all(|k| watched.iter().rev().find(|(w, _)| w == k).map(|(_, t)| *t == xtyped(&ex, k)).unwrap_or(false));
+        let only_rewatch = must.iter().all(|k| watched.iter().rev().find(|(w, _)| w == k).map(|(_, t)| *t == xtyped(&ex, k)).unwrap_or(false));
         let cmd = to_command(&args);
         let r = match std::panic::catch_unwind(std::panic::AssertUnwindSafe(|| ex.execute(&cmd))) {
             Ok(r) => Rv::from_resp(&r),
@@ -1180,6 +1221,7 @@ fn xsession(out: &mut Out, rng: &mut Rng, corpus: Option<u8>) {
         match kind.as_str() {
             "EXEC" => {
                 in_multi = false;
+                last_exec = Some(show(&r, false));
                 nontrivial |= !queued.is_empty() || !watched.is_empty();
                 match &r {
                     Rv::Bulk(None) => {
@@ -1193,9 +1235,9 @@ fn xsession(out: &mut Out, rng: &mut Rng, corpus: Option<u8>) {
                     }
                     Rv::Arr(Some(results)) => {
                         out.count("xexec:results");
-                        if !changed.is_empty() {
+                        if !must.is_empty() {
                             let sig = if only_rewatch { "C05:x:watch:rewatch-forgets-earlier-change" } else { "C05:x:watch:change-undetected" };
-                            out.violation(sig, &format!("executor EXEC succeeded although watched key(s) {:?} changed since their (first) WATCH", changed), replay.clone());
+                            out.violation(sig, &format!("executor EXEC succeeded although watched key(s) {:?} changed since their (first) WATCH", must), replay.clone());
                         }
                         if results.len() != queued.len() {
                             out.violation("C05:x:exec:result-count", &format!("{} results for {} queued commands", results.len(), queued.len()), replay.clone());
@@ -1236,6 +1278,18 @@ fn xsession(out: &mut Out, rng: &mut Rng, corpus: Option<u8>) {
                     out.violation("C05:x:queued:has-effect", "a command between MULTI and EXEC changed the executor's store", replay.clone());
                 }
             }
+        }
+    }
+    if corpus == Some(1) {
+        let sig = "C05:x:watch:rewatch-forgets-earlier-change";
+        if last_exec.as_deref() == Some("$-") {
+            out.count(&format!("corpus:fixed-defect-passes:{}", sig));
+        } else {
+            out.violation(
+                &format!("C05:fixed-defect-regressed:{}", sig),
+                &format!("the witness of the repaired defect {} fails again: EXEC answered {:?}, expected $- (nil)", sig, last_exec),
+                json!({"level": "executor", "session": text}),
+            );
         }
     }
     out.op("XDUMP".into(), show_dump(&xdump(&ex)));
